@@ -375,6 +375,14 @@ def replay(path):
     logging.disable(logging.CRITICAL)
     rp = json.load(open(path))
     rep = rp.get("replay", {})
+    from checks import c05_tls
+    if c05_tls.owns(rp):                     # TLS message layer witnesses
+        problems = c05_tls.replay_witness(rp, path)
+        for p in problems:
+            print("still failing:", p[:400])
+        if not problems:
+            print("no longer failing")
+        return 1 if problems else 0
     if rep.get("kind") == "scenario":
         res = R.run_scenario(rep["scenario"])
     elif rep.get("kind") == "tp":
